@@ -25,6 +25,10 @@ fn tape_of(rs: u64, replay: Option<Vec<u32>>) -> Tape {
 
 static OVERSAMPLING_A: [(u16, u16); 1] = [(0x1a00, 2)];
 static OVERSAMPLING_B: [(u16, u16); 2] = [(0x1a00, 3), (0x1600, 2)];
+// gen >= 2: PDOs other than the first one of their sync manager.
+static OVERSAMPLING_C: [(u16, u16); 1] = [(0x1a01, 2)];
+static OVERSAMPLING_D: [(u16, u16); 3] = [(0x1a01, 3), (0x1601, 2), (0x1a00, 2)];
+static OVERSAMPLING_E: [(u16, u16); 2] = [(0x1602, 4), (0x1a02, 2)];
 
 fn oversampling_of(table: &[(u16, u16)], pdo: u16) -> u32 {
     table.iter().find(|(p, _)| *p == pdo).map_or(1, |(_, m)| *m as u32)
@@ -96,8 +100,17 @@ fn frames_needed(frame_len: usize, pdi_len: usize, n_devices: usize, dc: bool) -
     frames
 }
 
+/// Three groups with the image capacities the caller declares for them.
+#[derive(Default)]
+pub struct GroupsP<const P0: usize, const P1: usize, const P2: usize> {
+    pub g0: ethercrab::SubDeviceGroup<16, P0, crate::simlock::SimLock>,
+    pub g1: ethercrab::SubDeviceGroup<16, P1, crate::simlock::SimLock>,
+    pub g2: ethercrab::SubDeviceGroup<16, P2, crate::simlock::SimLock>,
+}
+
 #[allow(clippy::too_many_arguments)]
-fn run_pd(prop: &str, mut t: Tape) -> CaseOutcome {
+fn run_pd<const P0: usize, const P1: usize, const P2: usize>(prop: &str, mut t: Tape) -> CaseOutcome {
+    let capacity = [P0, P1, P2];
     let mut out = CaseOutcome::default();
     let c08 = prop == "C08";
     let n = if c08 { 1 + t.choose(6, "n_devices") } else { t.choose(9, "n_devices") };
@@ -134,10 +147,13 @@ fn run_pd(prop: &str, mut t: Tape) -> CaseOutcome {
             // room for that when the device has one sync manager per direction.
             let single = specs[i].pd_sms.iter().filter(|m| m.is_output).count() <= 1 && specs[i].pd_sms.iter().filter(|m| !m.is_output).count() <= 1;
             if c08 && single {
-                match t.choose(4, "oversampling") {
+                match t.choose(if crate::tape::gen() >= 2 { 7 } else { 4 }, "oversampling") {
                     0 | 1 => &[],
                     2 => &OVERSAMPLING_A,
-                    _ => &OVERSAMPLING_B,
+                    3 => &OVERSAMPLING_B,
+                    4 => &OVERSAMPLING_C,
+                    5 => &OVERSAMPLING_D,
+                    _ => &OVERSAMPLING_E,
                 }
             } else {
                 &[]
@@ -177,7 +193,7 @@ fn run_pd(prop: &str, mut t: Tape) -> CaseOutcome {
     let mut w = World::new(&wcfg, seg, t);
     let md = w.md();
     let assign2 = assign.clone();
-    let init = w.sim.block_on(md.init::<16, Groups<16>>(now_ns, Groups::<16>::default(), move |g: &Groups<16>, sd: &SubDevice| {
+    let init = w.sim.block_on(md.init::<16, GroupsP<P0, P1, P2>>(now_ns, GroupsP::<P0, P1, P2>::default(), move |g: &GroupsP<P0, P1, P2>, sd: &SubDevice| {
         let i = (sd.configured_address().wrapping_sub(0x1000)) as usize;
         let h: &dyn SubDeviceGroupHandle = match assign2.get(i).copied().unwrap_or(0) {
             0 => &g.g0,
@@ -198,6 +214,7 @@ fn run_pd(prop: &str, mut t: Tape) -> CaseOutcome {
         "io_bytes": exp.io, "coe": specs.iter().map(|s| s.mailbox.as_ref().map_or(false, |m| m.coe)).collect::<Vec<_>>(),
         "pd_sms": specs.iter().map(|s| s.pd_sms.iter().map(|m| format!("SM{} {} @{:#06x} {}bit", m.index, if m.is_output { "out" } else { "in" }, m.start, m.bits())).collect::<Vec<_>>()).collect::<Vec<_>>(),
         "fmmu_counts": specs.iter().map(|s| s.fmmu_count).collect::<Vec<_>>(),
+        "declared_image_capacity": capacity, "oversampling": tables.iter().map(|t| format!("{:x?}", t)).collect::<Vec<_>>(),
     });
     let finish = |mut out: CaseOutcome, w: &World, th: TraceHash| {
         out.trace_hash = th.0;
@@ -221,19 +238,23 @@ fn run_pd(prop: &str, mut t: Tape) -> CaseOutcome {
         Ok(Ok(g)) => g,
     };
     // Application-side configuration in PRE-OP.
-    for (gi, g) in [&mut groups.g0, &mut groups.g1, &mut groups.g2].into_iter().enumerate() {
-        let _ = gi;
-        for mut sd in g.iter_mut(md) {
-            let i = sd.configured_address().wrapping_sub(0x1000) as usize;
-            if !tables[i].is_empty() {
-                sd.set_oversampling(tables[i]);
+    macro_rules! app_config {
+        ($g:expr) => {{
+            for mut sd in $g.iter_mut(md) {
+                let i = sd.configured_address().wrapping_sub(0x1000) as usize;
+                if !tables[i].is_empty() {
+                    sd.set_oversampling(tables[i]);
+                }
+                if variant == Variant::Dc {
+                    sd.set_dc_sync(DcSync::Sync0);
+                }
             }
-            if variant == Variant::Dc {
-                sd.set_dc_sync(DcSync::Sync0);
-            }
-        }
+        }};
     }
-    let Groups { g0, g1, g2 } = groups;
+    app_config!(groups.g0);
+    app_config!(groups.g1);
+    app_config!(groups.g2);
+    let GroupsP { g0, g1, g2 } = groups;
     let members = |gi: u8| -> Vec<usize> { (0..n).filter(|i| assign[*i].min(2) == gi).collect() };
 
     // Bring every group to OP (group 0 is the one observed for C07).
@@ -247,9 +268,20 @@ fn run_pd(prop: &str, mut t: Tape) -> CaseOutcome {
                     None
                 }
                 Ok(Err(e)) => {
-                    if want > 4096 {
+                    if want > capacity[$gi as usize] {
+                        out.probes.insert("layout_exceeds_declared_capacity".into(), 1);
                         if !matches!(e, Error::PdiTooLong { .. }) {
-                            out.violations.push(viol("pdi-too-long-error", format!("group {} needs {} bytes of 4096: into_op failed with {:?}", $gi, want, e)));
+                            out.violations.push(viol("pdi-too-long-error", format!("group {} needs {} bytes of {}: into_op failed with {:?}", $gi, want, capacity[$gi as usize], e)));
+                        }
+                        // The refused group is outside the property's quantifier ("after a group has
+                        // been brought to SAFE-OP or OP"). Whatever its devices were programmed with
+                        // before the refusal is cleared, as an application that carries on with the
+                        // other groups would do by re-initialising them, so that it cannot colour
+                        // what is observed about the groups that did reach OP.
+                        for i in mem.iter() {
+                            for k in 0..16 {
+                                w.sim.seg.devices[*i].mem[0x0600 + 16 * k + 12] = 0;
+                            }
                         }
                     } else {
                         let codes: Vec<String> = mem.iter().map(|i| format!("dev{} AL {} err {} code {:#06x}", i, w.sim.seg.devices[*i].al_state, w.sim.seg.devices[*i].al_error, w.sim.seg.devices[*i].al_code)).collect();
@@ -257,7 +289,12 @@ fn run_pd(prop: &str, mut t: Tape) -> CaseOutcome {
                     }
                     None
                 }
-                Ok(Ok(g)) => Some(g),
+                Ok(Ok(g)) => {
+                    if want > capacity[$gi as usize] {
+                        out.violations.push(viol("layout-beyond-capacity-accepted", format!("group {} needs {} bytes but declares an image capacity of {}: into_op succeeded", $gi, want, capacity[$gi as usize])));
+                    }
+                    Some(g)
+                }
             }
         }};
     }
@@ -353,10 +390,26 @@ fn run_pd(prop: &str, mut t: Tape) -> CaseOutcome {
                 d.strict_config = false;
             }
         }
+        let want0: usize = members(0).iter().map(|i| exp.io[*i].0 + exp.io[*i].1).sum();
         let g = match w.sim.block_on(g0.configure_dc_sync(md, dc_conf)) {
-            Ok(Ok(g)) => g,
+            Ok(Ok(g)) => {
+                if want0 > capacity[0] {
+                    let mut v = viol("layout-beyond-capacity-accepted", format!("PRE-OP group needing {} bytes with a declared image capacity of {}: configure_dc_sync succeeded", want0, capacity[0]));
+                    v.signature = "layout-beyond-capacity-accepted+dc-sync-from-preop".into();
+                    out.violations.push(v);
+                    return finish(out, &w, th);
+                }
+                g
+            }
             Ok(Err(e)) => {
-                out.violations.push(viol("dc-config-failed", format!("configure_dc_sync failed with {:?}", e)));
+                if want0 > capacity[0] {
+                    out.probes.insert("layout_exceeds_declared_capacity".into(), 1);
+                    if !matches!(e, Error::PdiTooLong { .. }) {
+                        out.violations.push(viol("pdi-too-long-error", format!("group 0 needs {} bytes of {}: configure_dc_sync failed with {:?}", want0, capacity[0], e)));
+                    }
+                } else {
+                    out.violations.push(viol("dc-config-failed", format!("configure_dc_sync failed with {:?}", e)));
+                }
                 return finish(out, &w, th);
             }
             Err(e) => {
@@ -403,7 +456,8 @@ fn run_pd(prop: &str, mut t: Tape) -> CaseOutcome {
         if let Some(g) = og2.as_ref() {
             structural(&mut out, &w, &specs, &exp, &members(2), g, md, 2);
         }
-        global_fmmu_disjointness(&mut out, &w);
+        let in_op: Vec<bool> = (0..n).map(|i| match assign[i].min(2) { 0 => true, 1 => og1.is_some(), _ => og2.is_some() }).collect();
+        global_fmmu_disjointness(&mut out, &w, &in_op);
         if !out.violations.is_empty() {
             return finish(out, &w, th);
         }
@@ -598,7 +652,8 @@ fn check_cycle<const N: usize, const P: usize, S: ethercrab::subdevice_group::Ha
         let io = sd.io_raw();
         if let Some((_, inp, outp)) = pats.iter().find(|p| p.0 == i) {
             if io.inputs() != &inp[..] && out.violations.is_empty() {
-                out.violations.push(viol("inputs-wrong", format!("device {}: inputs() shows {:02x?}, its input memory holds {:02x?}", i, io.inputs(), inp)));
+                let fm: Vec<String> = w.sim.seg.devices.iter().enumerate().flat_map(|(di, d)| (0..d.fmmu_count as usize).filter_map(move |k| { let f = d.fmmu(k); if f.enabled { Some(format!("dev{} AL{} FMMU{} logical {:#x}+{} -> {:#06x} r{} w{}", di, d.al_state, k, f.logical, f.len, f.phys, f.read, f.write)) } else { None } })).collect();
+                out.violations.push(viol("inputs-wrong", format!("device {}: inputs() shows {:02x?}, its input memory holds {:02x?}; LRW datagrams (logical start, returned data): {:x?}; enabled FMMUs: {:?}", i, io.inputs(), inp, lrws.iter().map(|l| (l.0, l.4.clone())).collect::<Vec<_>>(), fm)));
             }
             if io.outputs() != &outp[..] && out.violations.is_empty() {
                 out.violations.push(viol("outputs-changed", format!("device {}: outputs() shows {:02x?} after the cycle, the application wrote {:02x?}", i, io.outputs(), outp)));
@@ -744,9 +799,15 @@ fn structural<const N: usize, const P: usize, S: ethercrab::subdevice_group::Has
     }
 }
 
-fn global_fmmu_disjointness(out: &mut CaseOutcome, w: &World) {
+/// `in_op[i]`: device `i` belongs to a group that was brought to OP. The property speaks about
+/// groups that reached SAFE-OP/OP; what a group whose transition failed (e.g. with `PdiTooLong`)
+/// left in its devices is outside its quantifier.
+fn global_fmmu_disjointness(out: &mut CaseOutcome, w: &World, in_op: &[bool]) {
     let mut ranges: Vec<(u64, u64, usize, usize)> = Vec::new();
     for (i, d) in w.sim.seg.devices.iter().enumerate() {
+        if !in_op.get(i).copied().unwrap_or(false) {
+            continue;
+        }
         for k in 0..d.fmmu_count as usize {
             let f = d.fmmu(k);
             if f.enabled && f.len > 0 {
@@ -800,11 +861,22 @@ fn behavioural(out: &mut CaseOutcome, w: &World, specs: &[DevSpec], members: &[u
 }
 
 pub fn c07_case(rs: u64, _nonce: u64, replay: Option<Vec<u32>>) -> CaseOutcome {
-    run_pd("C07", tape_of(rs, replay))
+    run_pd::<4096, 4096, 4096>("C07", tape_of(rs, replay))
 }
 
 pub fn c08_case(rs: u64, _nonce: u64, replay: Option<Vec<u32>>) -> CaseOutcome {
-    run_pd("C08", tape_of(rs, replay))
+    let mut t = tape_of(rs, replay);
+    // gen >= 2: in a quarter of the runs the groups declare small image capacities, so that layouts
+    // around and beyond the capacity occur ("a layout that does not fit ... is an error").
+    if crate::tape::gen() >= 2 && t.flag(25, 100, "small_capacities") {
+        if t.flag(50, 100, "small_capacities_b") {
+            run_pd::<8, 4096, 16>("C08", t)
+        } else {
+            run_pd::<24, 4, 4096>("C08", t)
+        }
+    } else {
+        run_pd::<4096, 4096, 4096>("C08", t)
+    }
 }
 
 pub fn run(id: &str, tier: &str, seed: u64, workers: usize) -> i32 {
